@@ -240,13 +240,16 @@ def apply_renames(j, fn_ren, fld_ren):
                         walk(v)
         walk(j["instances"])
         walk(j["impls"])
+        newfns = {}         # built aside: a permutation of names (closures that swapped places) must not overwrite entries
         for k in list(j["fns"].keys()):
-            f = j["fns"].pop(k)
+            f = j["fns"][k]
             walk(f)
             nk = ren(k)
             if nk in fn_ren.values() and "name" in f:
                 f["name"] = nk.split("::")[-1]
-            j["fns"][nk] = f
+            newfns[nk] = f
+        j["fns"].clear()
+        j["fns"].update(newfns)
     if fld_ren:
         def walk2(x):
             if isinstance(x, dict):
@@ -362,7 +365,15 @@ def normalize(j):
         desugar_combinators(j)
     else:
         j["desugared"] = {}
-    return inline_helpers(j)
+    r = inline_helpers(j)
+    if not os.environ.get("VERIF_NO_DESUGAR"):
+        inline_closure_calls(j)
+        # helpers exposed by the previous step (a closure that only forwarded to a private helper)
+        r2 = inline_helpers(j)
+        for k_, v_ in r2.items():
+            r.setdefault(k_, []).extend(v_)
+        j["inlined"] = r
+    return r
 
 
 def _walk(x, f):
@@ -679,9 +690,10 @@ def desugar_combinators(j):
             if myield[0] == "ret":
                 jst.append(S(copy.deepcopy(t["dest"]), {"k": "use", "op": {"m": L(coff)}}))
             elif myield[0] == "filter":
-                # keep the value iff the predicate held: the `false` edge goes to the arm that yields None
-                jst.append(S(copy.deepcopy(t["dest"]), {"k": "use", "op": {"m": L(subj)}}))
-                jterm = {"k": "switch", "op": {"c": L(coff)}, "opty": "bool", "targets": [[0, b_other]], "otherwise": t["target"]}
+                # keep the value iff the predicate held: the `false` edge goes to the arm that yields None, the `true` edge to a
+                # block that rebuilds Some(payload) (so that "the result is Some" implies the predicate's conditions)
+                b_keep = boff + len(cb["blocks"])
+                jterm = {"k": "switch", "op": {"c": L(coff)}, "opty": "bool", "targets": [[0, b_other]], "otherwise": b_keep}
             else:
                 jst.append(S(copy.deepcopy(t["dest"]), {"k": "agg", "agg": "adt", "adt": enum, "variant": myield[1], "field_names": ["0"],
                                                         "ops": [{"m": L(coff)}]}))
@@ -702,6 +714,10 @@ def desugar_combinators(j):
                 else:
                     _remap_targets(tt, boff, unwind_to)
                 fb["blocks"].append(nbk)
+            if myield[0] == "filter":
+                fb["blocks"].append({"cleanup": False, "stmts": [S(copy.deepcopy(t["dest"]), {
+                    "k": "agg", "agg": "adt", "adt": enum, "variant": mvar, "field_names": ["0"],
+                    "ops": [{"m": _payload_place(subj, enum, mvar, arg_ty)}]})], "term": {"k": "goto", "target": t["target"]}})
             for (ci, gi) in recs:
                 ci["calls"].pop(str(b), None)
                 for k, v in gi["calls"].items():
@@ -725,6 +741,150 @@ def desugar_combinators(j):
             REPARENT[ck] = fk
     j["desugared"] = {k: sorted(set(v)) for k, v in done.items()}
     return j["desugared"]
+
+
+FN_CALLS = ("std::ops::FnOnce::call_once", "std::ops::FnMut::call_mut", "std::ops::Fn::call")
+
+
+def _tuple_ops(body, op):
+    """Operands of the argument tuple handed to an Fn*::call* (the tuple is built right before the call)."""
+    p = op.get("m") or op.get("c")
+    if not p or p["p"]:
+        return None
+    st = _single_def_stmt(body, p["l"])
+    if st is None or st["rv"].get("k") != "agg" or st["rv"].get("agg") != "tuple":
+        return None
+    return st["rv"]["ops"]
+
+
+def inline_closure_calls(j):
+    """A closure that is built and called in the same body - the shape left behind when a helper taking `impl Fn..` is inlined
+    into the caller that passed the closure (`branch_load(path, |seed| state.match_load_to_stores(..))`) - is replaced by the
+    closure's MIR, like the closures of the desugared std combinators."""
+    fns = j["fns"]
+    insts = j["instances"]
+    by_def = defaultdict(list)
+    for i in insts:
+        by_def[i["def"]].append(i)
+    done = defaultdict(list)
+    for fk in list(fns.keys()):
+        F = fns[fk]
+        fb = F["body"]
+        b = -1
+        while b + 1 < len(fb["blocks"]) and len(fb["blocks"]) < 4000:
+            b += 1
+            blk = fb["blocks"][b]
+            t = blk["term"]
+            if t["k"] != "call" or "k" not in t["func"] or t["func"]["k"].get("fn") not in FN_CALLS or len(t["args"]) != 2:
+                continue
+            if not isinstance(t.get("target"), int) or blk["cleanup"]:
+                continue
+            # the callee value: a local holding the closure, possibly through one reference
+            a0 = t["args"][0]
+            ck, cl = _closure_of_operand(fb, a0)
+            via_ref = False
+            if not ck:
+                p0 = a0.get("m") or a0.get("c")
+                if p0 and not p0["p"]:
+                    st0 = _single_def_stmt(fb, p0["l"])
+                    if st0 is not None and st0["rv"].get("k") == "ref" and not st0["rv"]["place"]["p"]:
+                        ck, cl = _closure_of_operand(fb, {"c": st0["rv"]["place"]})
+                        via_ref = True
+            if not ck or ck not in fns or fns[ck].get("stub"):
+                continue
+            C = fns[ck]
+            cb = C["body"]
+            args = _tuple_ops(fb, t["args"][1])
+            if args is None or len(args) != cb["arg_count"] - 1 or len(cb["blocks"]) > MAX_CLOSURE_BLOCKS:
+                continue
+            if any(x["term"]["k"] in ("yield", "asm", "tailcall") for x in cb["blocks"]):
+                continue
+            # the closure must have this one use (built once, called once) - otherwise keep it
+            uses = 0
+            for blk2 in fb["blocks"]:
+                for x in _fn_refs(blk2):
+                    pass
+            recs = []
+            ok = True
+            for ci in by_def.get(fk, []):
+                c = ci["calls"].get(str(b))
+                tgt = None
+                if c and c.get("k") == "inst":
+                    tgt = c["id"]
+                else:
+                    fa = [x for x in (c or {}).get("fnargs", []) if "inst" in x]
+                    if len(fa) == 1:
+                        tgt = fa[0]["inst"]
+                if tgt is None or insts[tgt]["def"] != ck:
+                    ok = False
+                    break
+                recs.append((ci, insts[tgt]))
+            if not ok:
+                continue
+            ln = t.get("ln")
+            unwind_to = t.get("unwind") if isinstance(t.get("unwind"), int) else None
+            coff = len(fb["locals"])
+            poff = len(F.get("promoted", []))
+            fb["locals"].extend(copy.deepcopy(cb["locals"]))
+            F.setdefault("promoted", []).extend(copy.deepcopy(C.get("promoted", [])))
+            boff = len(fb["blocks"]) + 1
+            b_join = len(fb["blocks"])
+            env_ty = cb["locals"][1]["ty"]
+
+            def S(lhs, rv):
+                st = {"k": "=", "lhs": lhs, "rv": rv}
+                if ln is not None:
+                    st["ln"] = ln
+                return st
+
+            def L(l):
+                return {"l": l, "p": []}
+            if env_ty.startswith("&mut "):
+                blk["stmts"].append(S(L(coff + 1), {"k": "ref", "mut": True, "place": L(cl)}))
+            elif env_ty.startswith("&"):
+                blk["stmts"].append(S(L(coff + 1), {"k": "ref", "mut": False, "place": L(cl)}))
+            else:
+                blk["stmts"].append(S(L(coff + 1), {"k": "use", "op": {"m": L(cl)}}))
+            for i, a in enumerate(args):
+                blk["stmts"].append(S(L(coff + 2 + i), {"k": "use", "op": a}))
+            blk["term"] = {"k": "goto", "target": boff}
+            fb["blocks"].append({"cleanup": False, "stmts": [S(copy.deepcopy(t["dest"]), {"k": "use", "op": {"m": L(coff)}})],
+                                 "term": {"k": "goto", "target": t["target"]}})
+            for gblk in cb["blocks"]:
+                nbk = copy.deepcopy(gblk)
+                _remap_locals(nbk["stmts"], coff)
+                _remap_locals(nbk["term"], coff)
+                if poff:
+                    _remap_promoted(nbk, poff)
+                tt = nbk["term"]
+                if tt["k"] == "return":
+                    nbk["term"] = {"k": "goto", "target": b_join}
+                elif tt["k"] == "resume":
+                    if unwind_to is not None:
+                        nbk["term"] = {"k": "goto", "target": unwind_to}
+                else:
+                    _remap_targets(tt, boff, unwind_to)
+                fb["blocks"].append(nbk)
+            for (ci, gi) in recs:
+                ci["calls"].pop(str(b), None)
+                for k, v in gi["calls"].items():
+                    ci["calls"][str(boff + int(k))] = v
+                for k, v in gi["drops"].items():
+                    ci["drops"][str(boff + int(k))] = v
+            for k2, f2 in fns.items():
+                if f2.get("parent_fn") == ck:
+                    f2["parent_fn"] = fk
+            C["body"] = {"arg_count": cb["arg_count"], "locals": cb["locals"], "upvar_names": [],
+                         "blocks": [{"cleanup": False, "stmts": [], "term": {"k": "unreachable"}}]}
+            C["promoted"] = []
+            C["stub"] = True
+            for gi2 in by_def.get(ck, []):
+                gi2["calls"] = {}
+                gi2["drops"] = {}
+            REPARENT[ck] = fk
+            done[ck].append(fk)
+    j["closure_calls_inlined"] = {k: sorted(set(v)) for k, v in done.items()}
+    return j["closure_calls_inlined"]
 
 
 def inline_helpers(j, log=None):
@@ -766,7 +926,9 @@ def inline_helpers(j, log=None):
                 continue
             # tiny in the reference tree as well (or new): a function that merely *became* small keeps its identity, so that a
             # rule anchored on it judges its (possibly broken) body instead of an empty stub
-            tiny = FLATTEN_TINY and _is_tiny(f) and (g not in ref or reference()["fns"].get(g, {}).get("tiny", False))
+            # ... and a function that was tiny (hence flattened) in the reference tree is flattened whatever it has grown into: the
+            # reference data and the rules know its effects only inside its callers
+            tiny = FLATTEN_TINY and (reference()["fns"].get(g, {}).get("tiny", False) if g in ref else _is_tiny(f))
             if not forced and not tiny and name in words and (g in ref or not ref):
                 continue            # a function the rules may anchor on (tiny closure-free helpers are always flattened:
                 #                     the rules are written against the flattened form, so inlining them by hand changes nothing)
